@@ -300,6 +300,28 @@ def run(R):
                         R.counterexample('inherited-entry', 'inherited-class-entry-point-uses-parent-context' if rname == 'K' else
                                          'inherited-entry-point-uses-parent-context', dict(case, rule=rname, text=t), want, got)
                         break
+    # a NAMED ignore rule of the parent overridden by the child (wider, narrower, with and without the keyword ignore): the
+    # skipping between the parent's tokens follows the child's definition, at every level below
+    OVA = 'grammar c13ov{k}_a\nignore Sp = /[ \\t]+/\nstart = W+\nW = /[a-z]+/\nPair = [W, ":", W]\n'
+    OVT = ['ab cd\nef', 'ab\tcd ef', 'ab cd', ' ab', 'ab:cd', 'ab :\ncd', 'ab\t: cd', 'ab_cd', 'ab _ cd', '']
+    for k, (ovr, flat_sp) in enumerate([('override Sp = /[ \\t\\n]+/', '/[ \\t\\n]+/'), ('override ignore Sp = /[ ]+/', '/[ ]+/'), ('override Sp = "_" | " "', '"_" | " "')]):
+        try:
+            Grammar(OVA.format(k=k))
+            gb = Grammar(f'grammar c13ov{k}_b extends c13ov{k}_a\n{ovr}\n')
+            gc = Grammar(f'grammar c13ov{k}_c extends c13ov{k}_b\nExtra = W\n')
+            gf = Grammar(f'ignore Sp = {flat_sp}\nstart = W+\nW = /[a-z]+/\nPair = [W, ":", W]\nExtra = W\n')
+        except Exception as e:                  # noqa
+            R.counterexample('ignore-override', 'derived-grammar-rejected:' + type(e).__name__, {'override': ovr}, 'grammar modules', str(e)[:150])
+            continue
+        for gname, gd in (('child', gb), ('grandchild', gc)):
+            for en in (None, 'Pair', 'start'):
+                for t in OVT:
+                    R.count('ignore-override', (k, gname, en, t), nontrivial=True)
+                    got, want = safe_outcome(gd, t, en), safe_outcome(gf, t, en)
+                    if got != want:
+                        R.counterexample('ignore-override', 'differs-from-flattened-grammar', {'parent': OVA.format(k=k), 'override': ovr, 'through': gname,
+                                         'entry': en or 'parse', 'text': t}, want, got)
+                        break
     R.samples.append({'chain': case['chain'], 'flattened': flatten(levels[-1])})
     R.assumptions += ['importlib / sys.modules plumbing and the re-parsing of the parent\'s __doc__ are exercised, not modelled',
                       'ignore declarations only in the derived grammar (parent has none) are outside the property and not generated']
